@@ -292,6 +292,11 @@ def rule_r2(ctx) -> List[R.Inst]:
     first_form = None
     for lp_ in (n for n in walk_no_nested(vm.node) if isinstance(n, ast.For)):
         it_ = lp_.iter
+        if isinstance(it_, ast.Call) and call_name(it_) == "enumerate" and len(it_.args) == 1 and [k.arg for k in it_.keywords] == ["start"]:
+            import copy as _cp
+            it_ = _cp.copy(it_)
+            it_.args = [it_.args[0], it_.keywords[0].value]       # enumerate(xs, start=s) is enumerate(xs, s)
+            it_.keywords = []
         if isinstance(it_, ast.Call) and call_name(it_) == "enumerate" and len(it_.args) == 2 and isinstance(lp_.target, ast.Tuple) and \
                 len(lp_.target.elts) == 2 and all(isinstance(x, ast.Name) for x in lp_.target.elts):
             src_ = _resolve1(vm.node, it_.args[0])
